@@ -115,16 +115,18 @@ CHECKS = {
 # clauses added after the independently seeded round (DESIGN 4c); appended to the claim text
 ADDED = {
     "C02": " Also: (d) no random draw is stored under a data-dependent key and reused for several sample components.",
-    "C03": " Also: (c) in every `shots is None` arm the weights handed on are the iterated probabilities themselves (times the parent branch's weight), not a renormalised or rescaled value.",
+    "C05": " Also: (d) mode tuples live in two index spaces (positions among the active modes vs original mode labels); each call from a simulation step into a state method hands the space the parameter is used in there (inferred from its combination with the post-selected modes / its use as an index into the active modes), converting with map_to_original_modes.",
+    "C03": " Also: (d) every branch state handed on by a step reachable with shots=None is the normalised projection (constructor with a normalization argument or normalize() on the way), which is what makes the simulator's multiplication of child by parent weights the chain rule. Also: (c) in every `shots is None` arm the weights handed on are the iterated probabilities themselves (times the parent branch's weight), not a renormalised or rescaled value.",
     "C04": " Also: no `<<` is evaluated in fewer bits than the stated multiplicity range needs with a run-time count; an in-place rescaling helper returns on every path the factor it applied on that path; the native kernels branch on computed floating values only through exact tests (no absolute tolerance).",
     "C07": " Also: every closed-form block is free of config.hbar; the S_(c) matrices printed in the class docstrings equal [[P, A], [conj A, conj P]] assembled from the blocks (LaTeX fragment reader); the steps registered for gates keep the requested mode order (no sorted image, no order-insensitive shortcut).",
     "C08": " Also: (b) every update of the mixed-Fock density matrix has a Hermiticity-preserving form (K rho K^dagger with the same K on both sides, an elementwise factor exp(i(g(ket) - g(bra))), an explicit conjugate-transpose mirror fill) and the attenuator's weights are symmetric under ket <-> bra.",
     "C09": " Also: (d) the NumPy/numba and the JAX implementation of the Gaussian density-matrix recurrence have the same normal form (pivot, initial term, loop summands, divisor).",
     "C11": " Also: the seed of every privately constructed generator is traced to a read of the seed_sequence property; no object shared by the shots of a dask region (bound by partial, free variable of the per-shot closure) is written in place by the per-shot callable; the jobs of the native permanent tile the Gray-code range exactly for every job count (S(0)=0, E(K-1)=M-1, S(j+1)=E(j)+1, proved by case split over the comparisons).",
-    "C13": " Also: the preparation-order validator may only test isinstance(., Preparation) (closed world).",
-    "C14": " Also: (c) every GaussianState constructed inside the library receives the config of the state it is derived from (hbar lives there); (d) ordering tags xpxp/xxpp: the index maps are applied to quantities of the source ordering, sums and products combine one ordering, ordering-named getters/setters return/receive that ordering.",
+    "C06": " Also: (d) the accumulators of the vectorised index functions have a literal integer dtype of at least 32 bits, never the dtype of the argument.",
+    "C13": " Also: (g) accumulator protocol for every cutoff >= 1: a constant index written into connector.accumulator(size=cutoff) is below the size and the start of a connector.range does not exceed its limit (fixed-size tf.TensorArray, tf.range). Also: the preparation-order validator may only test isinstance(., Preparation) (closed world).",
+    "C14": " Also: doubling layouts - v.repeat(2) is pairwise (xpxp-like), concatenate([v, v]) / tile(v, 2) and the complex covariance / displacement are block (xxpp-like); sums and products combine one layout. Also: (c) every GaussianState constructed inside the library receives the config of the state it is derived from (hbar lives there); (d) ordering tags xpxp/xxpp: the index maps are applied to quantities of the source ordering, sums and products combine one ordering, ordering-named getters/setters return/receive that ordering.",
     "C15": " Also: (c) each Givens step of the Clements sweep nulls one element of the addressed pair for the angles _get_angles returns, symbolically for every non-zero pivot and with the degenerate arm's constants for a zero pivot.",
-    "C16": " Also: a fullness test by length, or any test over order-insensitive aggregates of the mode tuple (len/min/max/sum/set) that substitutes a value ignoring the tuple; the complement of the complement; outcome projections that run in parallel with the mode tuple.",
+    "C16": " Also: the rule is applied per mode-tuple source when a function handles two (register and instruction), to return-based shortcuts, to sequential positional edits (np.insert / delete / pop at positions from the mode tuple inside a loop over it), and to the methods of Program, Simulator and Instruction. Also: a fullness test by length, or any test over order-insensitive aggregates of the mode tuple (len/min/max/sum/set) that substitutes a value ignoring the tuple; the complement of the complement; outcome projections that run in parallel with the mode tuple.",
     "C18": " Also: every use of an operand's raw amplitude map in __add__ is weighted by that operand's coefficient.",
     "C19": " Also: no one-sided skip guard around emitted instructions; no sorted/set image of a gate's qubit operands; no bit resolved by its position in an instruction's own operand list.",
     "C20": " Also: the whitelist is closed under subclassing (it is applied with isinstance) and every admitted operator class is a key of the table _eval uses; no comparator of a chained comparison is evaluated before the earlier links are tested; an evaluated slice bound is never used as a truth value; the value of a condition is consumed by truthiness only (never compared with True).",
